@@ -2251,6 +2251,7 @@ vbi_decode_teletext(vbi_decoder *vbi, uint8_t *buffer)
 				if (vtp->pgno == pgno)
 					break;
 			} else {
+ own_magazine:
 				curr = rvtp;
 				vtp = curr->page;
 
@@ -2300,6 +2301,15 @@ vbi_decode_teletext(vbi_decoder *vbi, uint8_t *buffer)
 			}
 
 			vtp->function = PAGE_FUNCTION_DISCARD;
+
+			if (curr != rvtp) {
+				/* Serial mode: that was the page of another
+				   magazine. A page of this magazine which only
+				   a header of its own magazine terminates (erase
+				   flag) ends here as well. */
+				goto own_magazine;
+			}
+
 			break;
 		}
 
